@@ -431,31 +431,48 @@ def check_wrapper(ctx, info, m, ridx, ok_acquire):
     if not some_blocks:
         ctx.bad(rid, "wrapper-returns-state:" + p, "acquire wrapper never returns Some(old state)", fn=fn)
         return
-    # edges of the switch on discriminant(old) that are acceptable for acquisition
-    allowed_edges = set()
-    all_sw_edges = set()
-    for b in range(len(fn.blocks)):
-        sub = switch_subject(fn, defs, b)
-        if sub and sub[0] == "discr" and len(sub[1]) == 1 and sub[1][0] in old:
-            t = fn.term(b)
-            listed = {v for v, _ in t[2]}
-            for v, x in t[2]:
-                all_sw_edges.add((b, x, v))
-                if v in ok_acquire:
-                    allowed_edges.add((b, x, v))
-            # otherwise edge is acceptable only if every non-listed variant is acceptable (never the case here)
-            all_sw_edges.add((b, t[3], "otherwise"))
-    # (a) Some(old) only reachable through allowed edges: search a path mark -> some_block avoiding allowed edges
+    # (a) Some(old) is built only when old is None / InProgress.  Decided per variant: fix discriminant(old) = v and follow the
+    # CFG with constant propagation (so `match`, `if let`, `matches!(..)` and a bool flag computed from the match are all
+    # understood); a Some(old) block reachable for any other variant is the violation.
     start = fn.term(m["bb"])[4]
-    for sb in sorted(some_blocks):
-        path = find_path_edges(fn, [start], lambda x: x == sb, avoid_edge=lambda x, s, lab: (x, s, lab) in allowed_edges)
-        if path is None:
-            ctx.ok(rid, "wrapper-some-only-idle:%s" % p, "Some(old) is built only behind discriminant(old) in {None, InProgress}",
-                   nontrivial=True, fn=fn)
-        else:
-            ctx.bad(rid, "wrapper-some-only-idle:%s" % p,
-                    "Some(old state) can be returned for a state other than None/InProgress (e.g. Rendering: two renderers at once, "
-                    "or Done: a finished frame rendered again)", fn=fn, pos=fn.term_pos(sb), path=path)
+    variants = fr_variants(ctx.prog)
+    offending = []
+    for vi, vname in enumerate(variants):
+        if str(vi) in ok_acquire:
+            continue
+        hit = []
+
+        def on_block(bb, env, hit=hit):
+            if bb in some_blocks:
+                hit.append(bb)
+                return False
+            return True
+
+        def assume(pl, vi=vi):
+            base = pl[0]
+            for _ in range(4):
+                if base in old:
+                    return vi
+                d = defs.single(base)
+                if d and d[2] == "assign" and d[3][2][0] == "ref":
+                    base = d[3][2][2][0]
+                    continue
+                if d and d[2] == "assign" and d[3][2][0] == "use" and op_place(d[3][2][1]) is not None:
+                    base = op_place(d[3][2][1])[0]
+                    continue
+                break
+            return None
+
+        const_explore(fn, start, {}, on_block, assume_discr=assume)
+        if hit:
+            offending.append((vname, hit[0]))
+    if not offending:
+        ctx.ok(rid, "wrapper-some-only-idle:%s" % p, "Some(old) is reachable only for discriminant(old) in {None, InProgress} "
+               "(%d other variants explored)" % (len(variants) - len(ok_acquire)), nontrivial=True, fn=fn)
+    else:
+        ctx.bad(rid, "wrapper-some-only-idle:%s" % p,
+                "Some(old state) can be returned for state %s (Rendering: two renderers at once; Done/Blended/Err: a finished frame "
+                "rendered again)" % ", ".join(v for v, _ in offending), fn=fn, pos=fn.term_pos(offending[0][1]))
     # (b) every path mark -> ret that does not go through a Some block passes an overwriting store under the same guard
     over = {s["bb"] for s in info.stores if s is not m and s["guard"] == m["guard"] and s["kind"] == "store"}
     path = find_path_edges(fn, [start], lambda x: fn.term(x)[0] == "ret",
